@@ -14,6 +14,7 @@ import (
 	"net"
 	"os"
 	"runtime"
+	"sync/atomic"
 	"syscall"
 	"time"
 	"unsafe"
@@ -331,6 +332,20 @@ func (p *poller) readWriteLoop() {
 					}
 
 					if ev.Events&epollEventsError != 0 {
+						// The peer has only shut down its sending side: what it
+						// sent before that is still to be delivered.
+						if ev.Events&(syscall.EPOLLERR|syscall.EPOLLHUP) == 0 && g.onRead == nil &&
+							(c.typ == ConnTypeTCP || c.typ == ConnTypeUnix) {
+							if asyncReadEnabled {
+								// the read task closes the connection at the end of the stream.
+								atomic.StoreInt32(&c.readEOF, 1)
+								c.AsyncRead()
+								continue
+							}
+							pbuf := g.borrow(c)
+							c.readToEOF(pbuf)
+							g.payback(c, pbuf)
+						}
 						_ = c.closeWithError(io.EOF)
 						continue
 					}
